@@ -246,6 +246,12 @@ struct GenState {
     pairs: Vec<String>,
     /// nilary functions (for `&n ^~`)
     nilary: Vec<String>,
+    /// variables of type `Str | 'int` bound on an earlier step
+    unions: Vec<String>,
+    /// variables of type `Circle[r: 'int] | Square[w: 'int]`
+    shapes: Vec<String>,
+    /// generic functions over `Some['t] | None`
+    generics: Vec<String>,
     /// modules an ACCEPTED step has imported so far
     seen_modules: Vec<&'static str>,
     /// modules whose first import in the session sat in a compile-REJECTED line
@@ -294,7 +300,7 @@ fn gen_step(r: &mut Rng, g: &mut GenState) -> Step {
         g.last_is_int = false;
         return Step::Ok(format!("{v} = {}", r.range(1, 50)));
     }
-    match r.below(24) {
+    match r.below(38) {
         0 => {
             let v = fresh(g, "a");
             g.ints.push(v.clone());
@@ -459,6 +465,64 @@ fn gen_step(r: &mut Rng, g: &mut GenState) -> Step {
             }
             Step::BadCompile(reject_with_module(m, &r.pick(&g.ints).clone()))
         }
+        24 => {
+            let v = fresh(g, "u");
+            let s = format!("{v} = {} {{ | =0 => \"zero\" | =n => n }}", r.range(0, 3));
+            g.unions.push(v);
+            g.last_is_int = false;
+            g.feats.push("bind-union");
+            Step::Ok(s)
+        }
+        25 | 31 | 32 if !g.unions.is_empty() => {
+            // a RUN-TIME type test, on a later step, of a value and types introduced earlier
+            let u = r.pick(&g.unions).clone();
+            g.last_is_int = true;
+            g.feats.push("type-test-earlier-union");
+            Step::Ok(match r.below(3) {
+                0 => format!("{u} {{ | ='int => 1 | ='bin => 2 | 3 }}"),
+                1 => format!("{u} {{ | =('int)i => [i, 1] __integer_add__ | =Str[b] => 7 }}"),
+                _ => format!("{u} {{ | =Str['bin] => 5 | ='int => 6 }}"),
+            })
+        }
+        26 => {
+            let v = fresh(g, "s");
+            let s = format!("{v} = {} {{ | =0 => Circle[r: {}] | Square[w: {}] }}", r.range(0, 1), r.range(1, 9), r.range(1, 9));
+            g.shapes.push(v);
+            g.last_is_int = false;
+            g.feats.push("bind-shape-union");
+            Step::Ok(s)
+        }
+        27 | 33 | 34 if !g.shapes.is_empty() => {
+            let v = r.pick(&g.shapes).clone();
+            g.last_is_int = true;
+            g.feats.push("type-test-earlier-tuple-union");
+            Step::Ok(if r.chance(1, 2) {
+                format!("{v} {{ | =Circle(r) => r | =Square(w) => [w, 10] __integer_add__ }}")
+            } else {
+                format!("{v} {{ | =Square(w: 'int) => 1 | =Circle(r: 'int) => 2 }}")
+            })
+        }
+        28 => {
+            let v = fresh(g, "unwrap");
+            let s = format!("{v} = #<'t>(Some['t] | None) {{ | =Some[x] => {} | =None => 0 }}", r.range(1, 9));
+            g.generics.push(v);
+            g.last_is_int = false;
+            g.feats.push("bind-generic-over-option");
+            Step::Ok(s)
+        }
+        29 | 30 | 35 | 36 | 37 if !g.generics.is_empty() => {
+            // a generic function from an earlier step meets a tuple type first built NOW
+            let f = r.pick(&g.generics).clone();
+            g.k += 1;
+            g.last_is_int = true;
+            g.feats.push("generic-meets-later-tuple-type");
+            Step::Ok(match r.below(4) {
+                0 => format!("Some[{}] {f}", r.pick(&g.ints)),
+                1 => format!("Some[Fresh{}[{}]] {f}", g.k, r.pick(&g.ints)),
+                2 => format!("Some[\"s{}\"] {f}", g.k),
+                _ => format!("None {f}"),
+            })
+        }
         21 if !g.fns.is_empty() => {
             // a named tail call OUTSIDE any function: must behave like an ordinary call (F50)
             g.last_is_int = true;
@@ -538,7 +602,7 @@ thread_local! {
 
 fn run_session(ev: &mut Ev, model: &mut Model, si: u64, seed: u64) {
     let mut r = Rng::for_case(seed, si);
-    let mut g = GenState { ints: vec![], pts: vec![], fns: vec![], pairs: vec![], nilary: vec![], seen_modules: vec![], poisoned: vec![], mods: if r.chance(1, 5) { MODS.to_vec() } else { vec!["m", "m2"] }, last_is_int: false, k: 0, feats: vec![] };
+    let mut g = GenState { ints: vec![], pts: vec![], fns: vec![], pairs: vec![], nilary: vec![], unions: vec![], shapes: vec![], generics: vec![], seen_modules: vec![], poisoned: vec![], mods: if r.chance(1, 5) { MODS.to_vec() } else { vec!["m", "m2"] }, last_is_int: false, k: 0, feats: vec![] };
     let n_steps = 3 + r.usize(10);
     let mut steps: Vec<Step> = vec![];
     for _ in 0..n_steps {
